@@ -405,8 +405,28 @@ def run(chk, repo):
     chk.ob('C06.c', 'every GVF file is indexed (idx or generated), none skipped', op.where, ok,
            'open() does not register pointers for every GVF file', key=op.qual + '::every-file', fn=op.qual)
 
+    rule_identity(chk, repo, 'C06.g')
+
+    # ------------------------------------------------------------------ C06.e
+    from rules.C10 import rule_thread
+    rule_thread(chk, repo, rid='C06.e', quals=('cli.common:load_references', 'cli.generate_index:generate_index'))
+    lr = repo.func('cli.common:load_references')
+    lc = G.find_calls(lr.node, 'load_canonical_peptides')
+    ok = len(lc) == 1 and [unparse(a) for a in lc[0].args] == ['cleavage_params']
+    chk.ob('C06.e', 'index branch loads the pool by the same cleavage_params', repo.loc(lr, lc[0]) if lc else lr.where, ok,
+           'the index branch does not look the canonical pool up by cleavage_params', key='cli.common:load_references::index-lookup', fn=lr.qual)
+
+    # ------------------------------------------------------------------ C06.f (shared with C02.c)
+    # a retry that mutates the shared CleavageParams leaks lowered limits to later transcripts only when the
+    # reducer runs in-process (--threads 1): the peptide set would depend on the thread count
+    from rules.C02 import retry_effects
+    retry_effects(chk, repo, 'C06.f')
+
+
+def rule_identity(chk, repo, rid='C06.g'):
+    gi = repo.func('seqvar.VariantRecordPoolOnDisk:VariantRecordPoolOnDisk.__getitem__')
     # ------------------------------------------------------------------ C06.g
-    chk.rule('C06.g', 'R-KEYS: set identity of a variant record covers the donor range / fusion acceptor it applies (set() de-duplication is file-order independent)', 4)
+    chk.rule(rid, 'R-KEYS: set identity of a variant record covers the donor range / fusion acceptor it applies (set() de-duplication is file-order independent)', 4)
     vr = repo.cls('seqvar.VariantRecord:VariantRecord')
 
     def attr_keys(fn):
@@ -428,24 +448,10 @@ def run(chk, repo):
     uses_set = any(isinstance(n, ast.Call) and call_name(n) == 'set' for n in ast.walk(gi.node))
     for m in getters:
         ks = attr_keys(m)
-        chk.ob('C06.g', f"{m.name}: attribute(s) {sorted(ks)} take part in __hash__ / __eq__ (records are de-duplicated with set(): {uses_set})", hf.where,
+        chk.ob(rid, f"{m.name}: attribute(s) {sorted(ks)} take part in __hash__ / __eq__ (records are de-duplicated with set(): {uses_set})", hf.where,
                bool(ks) and ks <= identity,
                f"{sorted(ks - identity)} is read when the variant is applied to the graph but is not part of the record identity: two splice events anchored at the "
                "same position with different donor ranges (or two fusions of one donor breakpoint with different acceptors) collapse in set(records), and which "
                "one survives depends on the order of the GVF files",
                key=f"{hf.qual}::identity-covers::{m.name}", fn=hf.qual)
 
-    # ------------------------------------------------------------------ C06.e
-    from rules.C10 import rule_thread
-    rule_thread(chk, repo, rid='C06.e', quals=('cli.common:load_references', 'cli.generate_index:generate_index'))
-    lr = repo.func('cli.common:load_references')
-    lc = G.find_calls(lr.node, 'load_canonical_peptides')
-    ok = len(lc) == 1 and [unparse(a) for a in lc[0].args] == ['cleavage_params']
-    chk.ob('C06.e', 'index branch loads the pool by the same cleavage_params', repo.loc(lr, lc[0]) if lc else lr.where, ok,
-           'the index branch does not look the canonical pool up by cleavage_params', key='cli.common:load_references::index-lookup', fn=lr.qual)
-
-    # ------------------------------------------------------------------ C06.f (shared with C02.c)
-    # a retry that mutates the shared CleavageParams leaks lowered limits to later transcripts only when the
-    # reducer runs in-process (--threads 1): the peptide set would depend on the thread count
-    from rules.C02 import retry_effects
-    retry_effects(chk, repo, 'C06.f')
